@@ -100,10 +100,14 @@ def main(ctx, replay=None):
                                 "NTV": int(rng.integers(7, 15)), "volume_ratio": float(rng.choice([1.1, 1.2, 1.2, 1.35]))})
             if n % 4 == 1:
                 kw["nv_static"] = 4                       # the smallest static table the cubic fit admits
+            if n % 3 == 2:
+                # frequencies that are not power laws, interpolated with an order different from the QHA order (3): the expected
+                # spectrum comes from an independent call of the interpolation with the configured method and order
+                kw.update(freq_curv=0.3, order=int(rng.choice([2, 4])), nv=int(rng.integers(6, 12)))
             ds = system_dataset(rng, exports, arg, **kw) if kind == "sys" else free_dataset(rng, extra_shear=arg, **kw)
             d = wd.sub(f"case{n}")
             ds.fit_pressure_window(d)
-            sp = ds.write(d)
+            sp = ds.write(d, pres={"spell": "four" if n % 6 == 1 else True} if n % 3 == 1 else None)        # every third table with other column spellings
             datasets.append((ds, d))
             desc = {"kind": kind, "arg": arg, "nv": ds.nv, "nq": ds.nq, "nat": ds.nat, "lattice": ds.lattice, "interp": ds.interpolator,
                     "keys": ["%d%d" % k for k in ds.keys], "settings": ds.settings}
